@@ -302,6 +302,57 @@ pub fn strategy_sparse() -> impl Strategy<Value = Case> {
     )
 }
 
+/// Many targets (65-140) with dependencies at every position of the declaration order: target i
+/// uses one or two of a handful of base targets or of its recent predecessors, the declaration
+/// order is rotated; dependencies are slower than dependents.
+pub fn strategy_many(max_n: usize) -> impl Strategy<Value = Case> {
+    (65usize..=140, vec(any::<u16>(), 48), 0u8..3).prop_map(move |(n, picks, mode_k)| {
+        let n = n.min(max_n);
+        let mut targets: Vec<crate::model::TargetSpec> = vec![];
+        for i in 0..n {
+            let mut t = crate::model::TargetSpec::new(&format!("m{:03}", i));
+            if i >= 4 {
+                let a = picks[i % picks.len()] as usize;
+                // a base target, or one of the eight predecessors
+                let d1 = if a % 3 == 0 { a % 4 } else { i - 1 - (a % 8.min(i)) };
+                t.uses.push(format!("m{:03}", d1));
+                if a % 5 == 0 {
+                    let d2 = (a / 7) % i;
+                    if d2 != d1 {
+                        t.uses.push(format!("m{:03}", d2));
+                    }
+                }
+            }
+            targets.push(t);
+        }
+        let rot = picks[1] as usize % n;
+        targets.rotate_left(rot);
+        let config = ConfigSpec { targets, ..Default::default() };
+        let lv = levels(&config);
+        let maxl = lv.iter().copied().max().unwrap_or(0);
+        let mut sleeps = vec![];
+        for (ti, t) in config.targets.iter().enumerate() {
+            // keep the whole run around a second: the deeper the chain, the shorter the step
+            let step = (600 / (maxl as u64 + 1)).clamp(8, 40);
+            sleeps.push(("c0".to_string(), t.path.clone(), step * (maxl - lv[ti]) as u64 / 2));
+        }
+        let mode = match mode_k {
+            0 => Mode::All,
+            1 => Mode::Changed(config.targets.iter().map(|t| t.path.clone()).collect()),
+            _ => Mode::Deps(config.targets.iter().rev().take(12).map(|t| t.path.clone()).collect()),
+        };
+        Case {
+            config,
+            mode,
+            seq_args: vec![],
+            cmd_args: vec!["c0".into()],
+            sleeps,
+            timing: "deps-slower".into(),
+            undefined: vec![],
+        }
+    })
+}
+
 pub fn expected_commands(case: &Case) -> Vec<String> {
     let mut v = vec![];
     for s in &case.seq_args {
@@ -497,7 +548,7 @@ pub fn check(case: &Case, w: usize) -> CheckResult {
 }
 
 pub fn run(ctx: &mut Ctx) {
-    ctx.rule = "acyclic configuration (<=10 targets; plus a size-boundary mode with one layer of 12-70 (thorough: 130) independent targets, biased to 28-40 and 60-70, below 1-3 dependents; plus a sparse-change mode: 3-5 layers on an unchanged spine, non-spine targets using targets two or more layers down, only non-spine targets changed) x selection mode (all / changed / -t --deps) x 1-4 (sometimes 8-12) commands split over -s sequences and -c (one of them may be listed a second time) \
+    ctx.rule = "acyclic configuration (<=10 targets; plus 65-140 targets each using base targets or recent predecessors, declaration order rotated; plus a size-boundary mode with one layer of 12-70 (thorough: 130) independent targets, biased to 28-40 and 60-70, below 1-3 dependents; plus a sparse-change mode: 3-5 layers on an unchanged spine, non-spine targets using targets two or more layers down, only non-spine targets changed) x selection mode (all / changed / -t --deps) x 1-4 (sometimes 8-12) commands split over -s sequences and -c (one of them may be listed a second time) \
 x run-time assignment (zero / random / dependencies slower than dependents / earlier command slower); all helpers exit 0. oracle over helper traces \
 (CLOCK_MONOTONIC): start(T,c) >= end(U,c) for every dep(T,U) in the run, min start(c[i+1]) >= max end(c[i]), result command order == documented order. \
 non-trivial = a dependency pair whose dependency sleeps longer than its dependent, or two consecutive commands with the earlier one slower; distinct by SHA-256"
@@ -513,6 +564,8 @@ non-trivial = a dependency pair whose dependency sleeps longer than its dependen
     ctx.drive("wide", || strategy_wide(max_width), n2, check);
     let n3 = ctx.n(60, 1000);
     ctx.drive("sparse-changes", strategy_sparse, n3, check);
+    let n4 = ctx.n(12, 200);
+    ctx.drive("many-targets-with-dependencies-everywhere", move || strategy_many(140), n4, check);
 }
 
 pub fn replay(ctx: &Ctx, label: &str, case: Value) -> Result<(), String> {
